@@ -77,6 +77,82 @@ def likelihood_kernels(R, K):
     return bad
 
 
+def load_mc_kernels():
+    src = gen.mc_kernel_python()
+    ns = {}
+    exec(compile(src, 'pyx_kernels_mc', 'exec'), ns)
+    return ns
+
+
+def mcmc_kernels(R, KM):
+    """converted acceptance kernels of cmarkov_chain_monte_carlo.pyx (transition ratio, prior ratio, balancing density, acceptance
+    with its three function pointers bound as acceptance_check binds them) against the pure-Python acceptance of the chain classes"""
+    import gc
+    gc.collect = lambda *a, **k: 0
+    import MTfit.algorithms.markov_chain_monte_carlo as mc
+    from scipy.special import gamma as Gamma
+    PI = math.pi
+    ND = Gamma(11.490) / (Gamma(5.745) * Gamma(5.745)) * 1.10452194071529090000     # the module constant of the .pyx (non-Windows branch)
+    bad = None
+    for i in range(R.n(300, 8000)):
+        uniform = R.rng.random() < 0.6
+        gauss = R.rng.random() < 0.6
+        kind = R.rng.choice(['mt', 'dc', 'up', 'down'])
+        pdc = R.rng.choice([0.5, R.rng.uniform(0.1, 0.9)])
+        alg = mc.IterativeTransDMetropolisHastingsGaussianTape(learning_length=10, chain_length=10, acceptance_rate_window=5, initial_sample='none',
+                                                                 sampling_prior='uniform_prior' if uniform else 'flat_prior', dc_prior=pdc,
+                                                                 gaussian_jump_params=gauss)
+        a = alg.alpha
+
+        def st(dc):
+            return {'gamma': 0.0 if dc else R.rng.uniform(-PI / 6, PI / 6) * 0.97, 'delta': 0.0 if dc else R.rng.uniform(-PI / 2, PI / 2) * 0.97,
+                    'kappa': R.rng.uniform(0, 2 * PI), 'h': R.rng.uniform(0, 1), 'sigma': R.rng.uniform(-PI / 2, PI / 2)}
+        if kind in ('mt', 'dc'):
+            x0, x, jump = st(kind == 'dc'), st(kind == 'dc'), 0
+        elif kind == 'up':
+            x0 = st(True)
+            x = dict(x0, **{k: v for k, v in st(False).items() if k in ('gamma', 'delta')})
+            jump = 1
+        else:
+            x0 = st(False)
+            x = dict(x0, gamma=0.0, delta=0.0)
+            jump = 1
+        L0, L = R.rng.uniform(-20, 2), R.rng.uniform(-20, 2)
+        alg.xi, alg.ln_likelihood_xi, alg.dc, alg.jump = dict(x0), L0, kind in ('dc', 'up'), bool(jump)
+        with np.errstate(all='ignore'):
+            py = float(np.asarray(alg.acceptance(dict(x), L, pdc)).flatten()[0])
+        mtst = x if kind == 'up' else x0
+        pr = (lambda g, d, g0, d0: KM['uniform_prior_ratio'](ND, g, d, g0, d0)) if uniform else KM['flat_prior_ratio']
+        jp = KM['gaussian_jump_prob'] if gauss else KM['flat_jump_prob']
+        R.count(('mc-kernel', kind, i))
+        try:
+            with np.errstate(all='ignore'):
+                kc = float(KM['acceptance'](KM['gaussian_transition_ratio'], pr, jp, x['gamma'], x['delta'], x['h'], x['sigma'],
+                                            x0['gamma'], a['gamma'], x0['delta'], a['delta'], x0['h'], a['h'], x0['sigma'], a['sigma'],
+                                            L, L0, jump, mtst['gamma'], mtst['delta'], a['gamma_dc'], a['delta_dc'], a['proposal_normalisation'], pdc))
+        except Exception as ex:
+            bad = bad or {'check': 'acceptance (cmarkov_chain_monte_carlo.pyx) raised %r' % ex, 'kind': kind}
+            continue
+        if not close(kc, py, 1e-8):
+            fixed = None
+            if not uniform and jump:
+                # the same kernel with the prior ratio the Python flat prior has across a jump
+                ratio = 3 / (PI * PI) if kind == 'up' else PI * PI / 3
+                with np.errstate(all='ignore'):
+                    fixed = float(KM['acceptance'](KM['gaussian_transition_ratio'], lambda *q: ratio, jp, x['gamma'], x['delta'], x['h'], x['sigma'],
+                                                   x0['gamma'], a['gamma'], x0['delta'], a['delta'], x0['h'], a['h'], x0['sigma'], a['sigma'],
+                                                   L, L0, jump, mtst['gamma'], mtst['delta'], a['gamma_dc'], a['delta_dc'], a['proposal_normalisation'], pdc))
+            if fixed is not None and close(fixed, py, 1e-8) and R.known_finding(
+                    'flat_prior_ratio_on_jumps', 'Cython flat_prior_ratio is 1 for every pair of states, also across a model jump, where the Python '
+                    'flat prior gives 3/pi^2 (full tensor) against 1 (double-couple): with sampling_prior flat_prior the compiled jump acceptances '
+                    'differ from the Python ones by the factor pi^2/3 (source level; e.g. %s jump: kernel %.6g, python %.6g)' % (kind, kc, py)):
+                continue
+            bad = bad or {'check': 'acceptance (cmarkov_chain_monte_carlo.pyx)', 'kind': kind, 'uniform_prior': uniform, 'gaussian_jump': gauss, 'dc_prior': pdc,
+                          'current': x0, 'proposed': x, 'ln_likelihoods': [L0, L], 'widths': {k: a[k] for k in ('gamma', 'delta', 'h', 'sigma', 'gamma_dc', 'delta_dc')},
+                          'kernel': kc, 'python': py}
+    return bad
+
+
 def run(R):
     C = conv.impl()
     proved = R.prove()
@@ -84,8 +160,11 @@ def run(R):
                       'the dispatch wrappers are NOT exercised; equivalence is shown for the source text of the conversion kernels only',
                       'tools/py2coq/pyx.py (declaration stripping, libc.math -> numpy names, pointer outputs -> returned locals) is trusted glue',
                       'kernels assume what their callers provide: eigenvalues sorted from largest to smallest, unit normal/slip vectors',
-                      'cprobability.pyx, cmarkov_chain_monte_carlo.pyx and cscatangle.pyx are not translated (loops over typed memory views, '
-                      'prange, C random numbers): not covered']
+                      'of cprobability.pyx and cmarkov_chain_monte_carlo.pyx only the scalar kernels are translated (likelihoods, scale factor, '
+                      'acceptance with its transition/prior/balancing functions); their loops over typed memory views, prange, the C random '
+                      'numbers, new_samples and all of cscatangle.pyx are not covered',
+                      'the module constant ND of cmarkov_chain_monte_carlo.pyx (tgamma expression) is a parameter of the model; the theorem assumes '
+                      'it makes ND (u(1-u))^(b-1) the beta density times the constant 1.1045... that the Python prior multiplies in']
     try:
         K = load_kernels()
     except gen.Untranslatable as e:
@@ -147,11 +226,18 @@ def run(R):
                 bad = bad or {'check': 'cTape_MT6', 'params': par, 'kernel': m_c.tolist(), 'python': m_p.tolist()}
     if K and not bad:
         bad = likelihood_kernels(R, K)
+    try:
+        KM = load_mc_kernels()
+    except gen.Untranslatable as e:
+        R.signal('translation', str(e))
+        KM = None
+    if KM and not bad:
+        bad = mcmc_kernels(R, KM)
     if bad:
         R.violation('Cython kernel %s (source level) disagrees with the pure-Python routine' % bad['check'], bad)
     R.cov['rule'] = ('source-level only: sorted eigenvalue triples incl. repeated and isotropic, (tau, k) inside and outside the diamond, random unit '
                      'normal/slip pairs, Tape parameters over their domain; kernels cE_tk, ctk_uv, cE_gd, cN_SDR, cTape_MT6 of the conversion module')
-    R.cov['not_covered'] = ['built extension modules (no Cython toolchain)', 'cprobability.pyx', 'cmarkov_chain_monte_carlo.pyx', 'cscatangle.pyx',
+    R.cov['not_covered'] = ['built extension modules (no Cython toolchain)', 'loops/reductions/random numbers of cprobability.pyx and cmarkov_chain_monte_carlo.pyx', 'cscatangle.pyx',
                             'dispatch wrappers and array plumbing of cmoment_tensor_conversion.pyx']
     return proved
 
